@@ -104,6 +104,17 @@ def check_export(params):
         bad("export-meaning", "pyzx evaluates to_pyzx(d) differently from the diagram (phases, Hadamard "
             "edges, order of inputs/outputs or scalar)")
         return out
+    # the dagger of the diagram (boxes produced by the library's own dagger) exports to the adjoint matrix
+    try:
+        dd = d.dagger()
+        gd = graph_matrix(dd.to_pyzx())
+        if simple_graph(dd) and not qref.close(gd, want.conj().T, 1e-7):
+            bad("export-dagger", "pyzx evaluates to_pyzx(d.dagger()) to something else than the conjugate transpose of the diagram")
+            return out
+    except Exception as e:  # noqa
+        if not isinstance(e, (ValueError, KeyError, AssertionError)) or "dagger" in str(e):
+            bad("export-dagger-raises", "to_pyzx(d.dagger()) raised %s: %s" % (type(e).__name__, str(e)[:120]))
+            return out
     # import it back
     snapshot = (list(g.inputs), list(g.outputs), sorted(g.vertices()), sorted(map(tuple, map(sorted, g.edges()))))
     try:
